@@ -222,7 +222,7 @@ def long_run_ops(rnd, n, payload, moves):
 
 def run(ctx):
     quick = ctx.tier == "quick"
-    consts = {"Payloads": "{7,8}", "MaxLive": 3 if quick else 4, "MaxMade": 4 if quick else 6, "MoveKeepsLen": "TRUE"}
+    consts = {"Payloads": "{7,8}", "MaxLive": 3 if quick else 4, "MaxMade": 5 if quick else 6, "MoveKeepsLen": "TRUE"}
     ctx.rule = ("TLC enumerates every reachable list (sequence of node identifiers over 2 payload values, so equal payloads "
                 "are the rule) and every operation on every live node; the real list is driven through every (state, "
                 "operation) pair with forward walk, backward walk, len() and iteration compared; random histories and long "
